@@ -75,5 +75,5 @@ def run_case(unit, cs, idx, build, params):
     if unit == "w5":
         return run_w5(cs)
     if unit == "w2":
-        return _w2case.run_w2(cs, [mon2.c07_ledger])
+        return _w2case.run_w2(cs, [mon2.c07_ledger], gen_opts={"fills": 0.3})
     return _w1case.run_w1(cs, [mon1.Ledger()])
